@@ -117,8 +117,8 @@ CHECKS['C02'] = dict(
         'resynchronisation when 5..8 packets behind. Those are decided by correspondence of '
         'Client.v/Server.v/Tunnel.v with the real programs on random fault schedules in virtual time plus an implementation-level oracle: '
         'clean-path exactly-once-in-order, after a fault prefix delivery resumes (at most 4 leading packets lost); a loop-level timed oracle: the real '
-        'client_tunnel()/tunnel() select loops as coroutines over a virtual clock with fault windows and periodic tun offers; and the select-loop model run '
-        'against the real client_tunnel() through a scripted select().',
+        'client_tunnel()/tunnel() select loops as coroutines over a virtual clock with fault windows and periodic tun offers; and the select-loop models of both programs '
+        '(ClientLoop.lstep, ServerLoop.siter) run against the real client_tunnel() / tunnel() loops through a scripted select().',
    note='Trusts: abstraction of the concrete models to the abstract protocols (inspection + rule-tie lemmas of C01); virtual time (wrapped '
         'time/select) stands for real time; one client session; zlib as oracle; Coq kernel; translator; extraction; gcc.',
    technique='Coq proof (progress/exactly-once by induction over clean rounds; timer state machine lemmas) + whole-system differential correspondence and timed oracle on the real programs',
@@ -128,7 +128,8 @@ CHECKS['C14'] = dict(
         'oracle for login/zlib): multiset ledger invariant -- for every query instance (address incl. port, id, name, type), answers sent + '
         'copies still held <= copies received; events that carry no query only answer held queries; at most two queries (plus one remembered '
         'duplicate each) held per session; lazy mode answers the older held query first, immediate mode answers at once or parks for the sweep; '
-        'id 0 ping/data queries are ignored and never held. Tied to iodined.c by per-event correspondence on server histories and an '
+        'id 0 ping/data queries are ignored and never held. Tied to iodined.c by per-event correspondence on server histories, by running the select-loop model '
+        '(ServerLoop.siter: clear loop, tun back-pressure, handler order, final sweep) against the REAL tunnel() loop through a scripted select(), and by an '
         'implementation-level multiset oracle that parses every emitted datagram and matches it against unanswered received queries.',
    note='Trusts: the oracle matches on (address, id, dotted question name, type); a label containing a dot byte is compared as dotted text; '
         'Coq kernel; translator; extraction; gcc.',
